@@ -208,12 +208,12 @@ FIXED_POINT_CELLS = [
     "http://a.com/x", "http://a.com/r?url=http%3A%2F%2Fb.org%2Fx", "http://a.com/r?url=http%3A%2F%2Fb.org%2F%3Fnext%3Dhttp%253A%252F%252Fc.net%252Fy", "http://a.com/r?url=%2Fx", "http://a.com/r?u=/x&v=1",
     "http://a.com/?url=http://a.com/?url=http://a.com/", "http://a&url=%2Fx", "http://a.com&next=/x", "a.com?url=/", "http://a.com/?url=/", "http://a.com/?url=//b.org/x", "http://a.com/?url=https://", "http://a.com/?url=http://",
     "https://b-org.cdn.ampproject.org/c/s/b.org/x", "https://b-org.cdn.ampproject.org/c/s/", "https://b-org.cdn.ampproject.org/c/s/b.org/r?url=http%3A%2F%2Fc.net", "https://www.youtube.com/redirect?q=b.org%2Fx&v=1", "http://a.com/url?q=http://b.org/x", "http://a.com/?q=http://b.org/x",
-    "http://a.com/?%75rl=http%3A%2F%2Fb.org", "http://a.com/?u\x00rl=http://b.org", "http://a.com/?redirect_to=/a?redirect_to=/b", "", "url=/x", "?url=/x", "http://a.com/?url=%252Fx",
+    "http://a.com/?%75rl=http%3A%2F%2Fb.org", "http://a.com/?u\x00rl=http://b.org", "http://a.com/?redirect_to=/a?redirect_to=/b", "", "url=/x", "?url=/x", "http://a.com/?url=%252Fx", "http://[bad/?url=%2Fx", "http://[bad/?url=http%3A%2F%2Fb.org", "http://a.com:x/?url=%2Fy",
 ]
 
 
 def fixed_point_table(ctx, rule):
-    ctx.rule(rule, "model table (fixed point): infer_redirection, interpreted on one url per class {no key, absolute / nested / relative / protocol-relative / empty target, a key in host position, self-embedding, AMP / Marfeel cache with and without tail, youtube redirect, the 'q' key with and without its route, escaped or control-split key, double-escaped value, degenerate strings}: the recursive result is unchanged by a further application, equals what repeated non-recursive application converges to within 8 steps, and is the url itself or shorter")
+    ctx.rule(rule, "model table (fixed point): infer_redirection, interpreted on one url per class {no key, absolute / nested / relative / protocol-relative / empty target, a key in host position, self-embedding, AMP / Marfeel cache with and without tail, youtube redirect, the 'q' key with and without its route, escaped or control-split key, double-escaped value, unparseable base (unbalanced bracket, bad port), degenerate strings}: the recursive result is unchanged by a further application, equals what repeated non-recursive application converges to within 8 steps, and is the url itself or shorter")
     from ..microeval import Raised
     repo = ctx.repo
     mod = repo.mod("infer_redirection")
